@@ -160,7 +160,8 @@ async fn run_one(sc: &Value) -> Value {
             let ip = if sc["ipMatches"].as_bool().unwrap_or(true) { "127.0.0.1:5555" } else { "10.1.1.1:5555" };
             let body = serde_json::to_vec(&json!({"timestamp": now_secs() - age, "client_addr": ip, "user_name": "Cookie", "user_id": "99999999-2222-4333-8444-555555555555",
                                                   "target": "t", "profile_properties": [], "extra": {}})).unwrap();
-            let signing = if sc["secretMatches"].as_bool().unwrap_or(true) { sc["secret"].as_str().unwrap_or("").to_string() } else { "another secret".to_string() };
+            // signWith: the secret the presented cookie was signed under, where it is not the configured one (default: an unrelated secret)
+            let signing = if sc["secretMatches"].as_bool().unwrap_or(true) { sc["secret"].as_str().unwrap_or("").to_string() } else { sc["signWith"].as_str().unwrap_or("another secret").to_string() };
             let cookie = ref_sign(&body, signing.as_bytes());
             let stall = sc["stallS"].as_u64().unwrap_or(0);
             if stall > 0 {
